@@ -94,6 +94,7 @@ M("C10", TAD, "StochasticGame.solve", "        self.check_game()\n", "        se
 M("C10", TAD, "StochasticGame.solve", "        state_list = self.init_states()\n", "        state_list = self.init_states()\n        self.state_list = state_list\n", "C10.2", "node cache on the game object")
 M("C10", TAD, "PlayerOne.prune_paths", "        self.next_states = [\n            _next_state for _next_state in self.next_states\n            if state_list[_next_state[NEXT_STATE_IDX]].reach_probability != 0]",
   "        for _next_state in list(self.next_states):\n            if state_list[_next_state[NEXT_STATE_IDX]].reach_probability == 0:\n                self.remove_path(_next_state)", None, "in-place removal over a snapshot: the private copy protects the input (must stay silent for C10)")
+M("C10", TAD, "StochasticGame.solve", "        self.check_game()\n", "        self.check_game()\n        list.sort(self.final_states)\n", "C10.1", "caller's final_states sorted through the unbound list.sort")
 # ---- C11 -------------------------------------------------------------------------------------------------------------
 M("C11", GEN, "write_robot_A", 'my_file.write(",\\n")', 'my_file.write("\\n")', "C11.1", "comma between games dropped")
 M("C11", GEN, "write_robot_B", "my_file.write(\" 'game_b': \")", "my_file.write(\" 'game_a': \")", "C11.1", "game_a written twice")
